@@ -208,8 +208,25 @@ def run(cx):
             elif isinstance(n, ast.FormattedValue) and st_.is_set(n.value):
                 r.fail(f"{fnq(n)}/format-set", (m, n), "a set is formatted into text")
 
-    # ---- C10-GLOBAL-STATE --------------------------------------------------------------------
-    r = cx.rule("C10-GLOBAL-STATE", "no module-level mutable state is written (or can be written) by parse()/emit(): no empty module-level containers/iterators, no stores through module-level tables, no global/func-attribute rebinding, no mutable defaults, no caches of impure results", floor=40)
+    rule_global_state(cx, "C10-GLOBAL-STATE", mods)
+
+    # ---- C10-SOURCES -------------------------------------------------------------------------
+    r = cx.rule("C10-SOURCES", "no nondeterministic or environment-dependent source (id/hash/random/time/environ/uuid/listdir) feeds the transpiler", floor=100)
+    for m in mods[:3]:
+        for n in ast.walk(m.tree):
+            if isinstance(n, ast.Call):
+                cn = call_name(n) or ""
+                if cn in NONDET_CALLS or cn.split(".")[0] in ("random", "uuid", "secrets", "time", "datetime"):
+                    r.fail(f"{m.rel.split('/')[-1]}/{cn}", (m, n), f"call to {cn}() in the transpiler")
+                else:
+                    r.ok(None)
+            elif isinstance(n, ast.Attribute) and (dotted(n) or "") in NONDET_ATTRS:
+                r.fail(f"{m.rel.split('/')[-1]}/{dotted(n)}", (m, n), f"reads {dotted(n)}")
+
+
+def rule_global_state(cx, rid, mods):
+    pm = mods[0]
+    r = cx.rule(rid, "no module-level mutable state is written (or can be written) by parse()/emit(): no empty module-level containers/iterators, no stores through module-level tables, no global/func-attribute rebinding, no mutable defaults, no caches of impure results", floor=40)
     state_mods = mods + [mod("toolchain/pio.py")]
     for m in state_mods:
         mutable_globals = {}
@@ -285,19 +302,4 @@ def run(cx):
         isinstance(v, (ast.Constant, ast.Dict, ast.List, ast.Set)) or (isinstance(v, ast.Call) and call_name(v) in ("set", "dict", "list") and not v.args)
         for v in ctx_def[0].values)
     r.check(fresh, "parse/fresh-ctx", (pm, pf), "parse() must build its context from a fresh dict literal whose values are fresh literals")
-    ef = mods[1].func("emit")
-    for name, defs in Locals(ef).defs.items():
-        pass
 
-    # ---- C10-SOURCES -------------------------------------------------------------------------
-    r = cx.rule("C10-SOURCES", "no nondeterministic or environment-dependent source (id/hash/random/time/environ/uuid/listdir) feeds the transpiler", floor=100)
-    for m in mods[:3]:
-        for n in ast.walk(m.tree):
-            if isinstance(n, ast.Call):
-                cn = call_name(n) or ""
-                if cn in NONDET_CALLS or cn.split(".")[0] in ("random", "uuid", "secrets", "time", "datetime"):
-                    r.fail(f"{m.rel.split('/')[-1]}/{cn}", (m, n), f"call to {cn}() in the transpiler")
-                else:
-                    r.ok(None)
-            elif isinstance(n, ast.Attribute) and (dotted(n) or "") in NONDET_ATTRS:
-                r.fail(f"{m.rel.split('/')[-1]}/{dotted(n)}", (m, n), f"reads {dotted(n)}")
